@@ -12,8 +12,10 @@ import (
 	"bytes"
 	"crypto/aes"
 	"fmt"
+	"strings"
 
 	"github.com/dchest/cmac"
+	"github.com/gopacket/gopacket"
 
 	"github.com/scionproto/scion/pkg/slayers"
 	"github.com/scionproto/scion/pkg/slayers/path"
@@ -255,6 +257,82 @@ func changes(p *pkt, k spiKind, r *vlib.Rand) []change {
 	return cs
 }
 
+// upperCases ties the model's walk over extension headers (where the upper layer starts, i.e. what
+// callers hand to ComputeAuthCMAC as PldType/Pld) to the real extension-header skippers.
+func upperCases(e *vlib.Env, r *vlib.Rand, n int) {
+	mk := func(class uint8, next uint8) []byte {
+		buf := gopacket.NewSerializeBuffer()
+		var err error
+		nopt := r.Intn(3)
+		if class == 200 {
+			x := &slayers.HopByHopExtn{}
+			x.NextHdr = slayers.L4ProtocolType(next)
+			for i := 0; i < nopt; i++ {
+				x.Options = append(x.Options, &slayers.HopByHopOption{OptType: slayers.OptionType(2 + r.Intn(200)), OptData: r.Bytes(r.Intn(20))})
+			}
+			err = x.SerializeTo(buf, gopacket.SerializeOptions{FixLengths: true})
+		} else {
+			x := &slayers.EndToEndExtn{}
+			x.NextHdr = slayers.L4ProtocolType(next)
+			for i := 0; i < nopt; i++ {
+				x.Options = append(x.Options, &slayers.EndToEndOption{OptType: slayers.OptionType(2 + r.Intn(200)), OptData: r.Bytes(r.Intn(20))})
+			}
+			err = x.SerializeTo(buf, gopacket.SerializeOptions{FixLengths: true})
+		}
+		if err != nil {
+			return []byte{next, 0, 1, 0} // what the layer refuses to serialize: hand-made header
+		}
+		return append([]byte(nil), buf.Bytes()...)
+	}
+	l4s := []uint8{17, 202, 6, 203, 0, 200, 201}
+	for i := 0; i < n; i++ {
+		l4 := l4s[r.Intn(len(l4s))]
+		data := r.Bytes(r.Intn(24))
+		nh := l4
+		if r.Chance(50) {
+			data = append(mk(201, nh), data...)
+			nh = 201
+		}
+		if r.Chance(40) {
+			data = append(mk(200, nh), data...)
+			nh = 200
+		}
+		if r.Chance(10) {
+			data = append(mk([]uint8{200, 201}[r.Intn(2)], nh), data...) // repeated / misordered
+			nh = data[0]
+			nh = []uint8{200, 201}[r.Intn(2)]
+		}
+		switch r.Intn(10) {
+		case 0:
+			data = data[:r.Intn(len(data)+1)]
+		case 1:
+			if len(data) > 1 {
+				data[1] = byte(r.U64())
+			}
+		}
+		in := append([]byte(nil), data...)
+		ans, _ := vlib.Safe(func() string {
+			t, d := nh, in
+			if t == 200 {
+				var h slayers.HopByHopExtnSkipper
+				if err := h.DecodeFromBytes(d, gopacket.NilDecodeFeedback); err != nil {
+					return "none"
+				}
+				t, d = uint8(h.NextHdr), h.Payload
+			}
+			if t == 201 {
+				var x slayers.EndToEndExtnSkipper
+				if err := x.DecodeFromBytes(d, gopacket.NilDecodeFeedback); err != nil {
+					return "none"
+				}
+				t, d = uint8(x.NextHdr), x.Payload
+			}
+			return fmt.Sprintf("ok %d %d", t, len(d))
+		})
+		e.Op(fmt.Sprintf("upper %d %s", nh, vlib.Hex(data)), ans, "upper/"+strings.SplitN(ans, " ", 2)[0])
+	}
+}
+
 func main() {
 	e := vlib.Init()
 	r := vlib.NewRand(uint64(e.Seed))
@@ -347,6 +425,7 @@ func main() {
 			}
 		}
 	}
+	upperCases(e, r, e.N(1500, 30000))
 	e.Extra["tc_mask_deviations"] = known
 	e.Finish()
 }
